@@ -157,6 +157,34 @@ func c11Check(c *kit.Case, in c11Input) {
 			c11Fail(c, cdc, v0, "nondeterministic", fmt.Sprintf("re-used encoder: 1st %s 2nd %s fresh %s", cdcHex(b1), cdcHex(b2), cdcHex(enc0)))
 		}
 	}
+	// --- an Encode that fails part-way must not leak into the next use of that encoder
+	// (the same object, EncodeMany, and through the pool)
+	if strings.HasPrefix(cdc.Name, "types.") {
+		broken := &types.WorkReport{AuthorizerHash: types.OpaqueHash{0xAA}, AuthOutput: types.ByteSequence{1, 2, 3},
+			Results: []types.WorkResult{{ServiceID: 7}}} // the zero WorkExecResult has no valid type
+		e := types.NewEncoder()
+		e.SetHashSegmentMap(seg)
+		if _, ferr := e.Encode(broken); ferr == nil {
+			c.Class("broken_value_encoded_without_error")
+		} else {
+			c.Class("encode_after_failed_encode")
+			if b, e1 := e.Encode(cdcPtr(v0)); e1 != nil || !bytes.Equal(b, enc0) {
+				c11Fail(c, cdc, v0, "nondeterministic", fmt.Sprintf("encoder re-used after an Encode that failed: %s (err %v), fresh %s", cdcHex(b), e1, cdcHex(enc0)))
+			}
+			e.EncodeMany(broken)
+			if b, e1 := e.EncodeMany(cdcPtr(v0)); e1 != nil || !bytes.Equal(b, enc0) {
+				c11Fail(c, cdc, v0, "nondeterministic", fmt.Sprintf("encoder re-used after an EncodeMany that failed: %s (err %v), fresh %s", cdcHex(b), e1, cdcHex(enc0)))
+			}
+			for k := 0; k < 3; k++ {
+				pe := types.GetEncoder()
+				pe.Encode(broken)
+				types.PutEncoder(pe)
+				if b, e1 := cdc.Enc(cdcPtr(v0), seg, true); e1 != nil || !bytes.Equal(b, enc0) {
+					c11Fail(c, cdc, v0, "nondeterministic", fmt.Sprintf("pooled encoder after another user's failed Encode: %s (err %v), fresh %s", cdcHex(b), e1, cdcHex(enc0)))
+				}
+			}
+		}
+	}
 	// --- round trip (Decode runs in the worker process, see common file)
 	req := &cdcReq{Codec: cdc.Name, Mode: in.Mode, Seg: cdcSegKeys(seg), Data: enc0, Node: in.Node}
 	if cdc.SelfDelimiting {
